@@ -53,6 +53,9 @@ def work(job):
         if expect == 'fire':
             if r.returncode == 1:
                 return (label, 'OK', lines[0][:150] if lines else '')
+            und = os.path.join(os.path.dirname(pf), 'undetected')
+            if r.returncode == 0 and os.path.exists(und):
+                return (label, 'OK', 'documented as not detected')
             return (label, 'MISSED', 'rc=%d' % r.returncode)
         bad = [l for l in r.stdout.splitlines() if l.startswith('RESULT') and 'rc=0' not in l]
         lim = os.path.join(os.path.dirname(pf), 'limitation')
